@@ -185,7 +185,7 @@ func main() {
 	// streams of the extension; each may meet one open finding (its signature gives the code)
 	nExt := 30
 	if o.Thorough() {
-		nExt = 500
+		nExt = 200
 	}
 	mkx := func(kind string, n, ntopics int) {
 		for i := 0; i < n; i++ {
